@@ -23,7 +23,7 @@ RULE = ("boundary corpus (22 small documents squared: every scalar type change 1
         "after a first-run write; non-trivial = distinct case in which the user file sets at least one key "
         "the defaults also have, or a first-run file was written and re-read")
 
-APP = "c20app"
+APP = G.APP_DEFAULT
 OLD_NS = 1_000_000_000 * 10 ** 9      # mtime given to a pre-existing user file
 
 
@@ -271,10 +271,24 @@ class Impl:
         self.cfg = cfg
         self.trace = []
         self.path = None
+        self.tmp = None
+        self.app = APP
+        self.fault = None          # read fault armed for the next read-mode open of the configuration file (one-shot)
+        self.fault_fired = None
+        self.other = []            # opens of other paths below the configuration home
 
         def tracing_open(file, mode="r", *a, **k):
-            if self.path is not None and os.path.abspath(str(file)) == self.path:
+            p = os.path.abspath(os.fspath(file)) if isinstance(file, (str, os.PathLike)) else None
+            if self.path is not None and p == self.path:
                 self.trace.append(("open", mode))
+                if self.fault is not None and self.fault[0] in ("open", "read") and not set(mode) & set("wax+"):
+                    kind, code = self.fault
+                    self.fault, self.fault_fired = None, (kind, code)
+                    if kind == "open":
+                        raise OSError(code, os.strerror(code), str(file))
+                    return FailingReader(builtins.open(file, mode, *a, **k), code, str(file))
+            elif p is not None and self.tmp is not None and p.startswith(self.tmp + os.sep):
+                self.other.append((os.path.relpath(p, self.tmp), mode))
             return builtins.open(file, mode, *a, **k)
 
         cfg.open = tracing_open            # module global shadows the builtin inside config.py
@@ -307,17 +321,37 @@ class Impl:
     def comment_out(self, text):
         return self.cfg._comment_out_toml(text)
 
-    def fresh(self):
+    def fresh(self, app=APP):
         tmp = tempfile.mkdtemp(prefix="awverif-c20-")
         os.environ["XDG_CONFIG_HOME"] = tmp
         self.tmp = tmp
-        self.path = os.path.join(tmp, "activitywatch", APP, APP + ".toml")
+        self.app = app
+        # the file of an application: <config home>/activitywatch/<appname>/<appname>.toml, whatever characters the name has
+        self.path = os.path.join(tmp, "activitywatch", app, app + ".toml")
+        self.other = []
 
-    def put_user_file(self, text):
-        os.makedirs(os.path.dirname(self.path))
-        with builtins.open(self.path, "w", newline="") as f:
-            f.write(text)
+    def put_user_file(self, text, via_save=False, prefix=b""):
+        """the user's file: written here, or by the library's own save_config_toml (the location it uses itself)"""
+        if via_save:
+            self.cfg.save_config_toml(self.app, text)
+            self.other = []
+            if not os.path.isfile(self.path):
+                return False
+        else:
+            os.makedirs(os.path.dirname(self.path), exist_ok=True)
+            with builtins.open(self.path, "wb") as f:
+                f.write(prefix + text.encode("utf-8"))
         os.utime(self.path, ns=(OLD_NS, OLD_NS))
+        return True
+
+    def strays(self):
+        """regular files below the configuration home other than the application's file"""
+        out = []
+        for d, _, fs in os.walk(self.tmp):
+            for f in fs:
+                if os.path.join(d, f) != self.path:
+                    out.append(os.path.relpath(os.path.join(d, f), self.tmp))
+        return sorted(out)
 
     def stat(self):
         if not os.path.lexists(self.path):
@@ -326,13 +360,24 @@ class Impl:
         with builtins.open(self.path, "rb") as f:
             return (f.read(), st.st_mtime_ns, st.st_ino)
 
-    def load(self, default_text):
+    def load(self, default_text, fault=None):
         before = self.stat()
         self.trace = []
+        self.fault, self.fault_fired, self.exc = None, None, None
+        if fault is not None and fault[0] == "chmod":
+            os.chmod(self.path, fault[1])
+            self.fault_fired = ("chmod", fault[1])
+        elif fault is not None and fault[0] in ("open", "read"):
+            self.fault = fault
         try:
-            value = plain(self.cfg.load_config_toml(APP, default_text), self.AoT)
+            value = plain(self.cfg.load_config_toml(self.app, default_text), self.AoT)
         except Exception as ex:
             value = ("EXC", type(ex).__name__)
+            self.exc = ex
+        finally:
+            self.fault = None
+            if fault is not None and fault[0] == "chmod":
+                os.chmod(self.path, 0o644)
         trace = self.trace
         self.trace = []
         return value, before, self.stat(), trace
@@ -340,6 +385,45 @@ class Impl:
     def done(self):
         self.path = None
         shutil.rmtree(self.tmp, ignore_errors=True)
+
+
+class FailingReader:
+    """a file object whose reads raise OSError(code): the open succeeded, the device fails afterwards"""
+
+    def __init__(self, f, code, name):
+        self._f, self._code, self._name = f, code, name
+
+    def _fail(self, *a, **k):
+        raise OSError(self._code, os.strerror(self._code), self._name)
+
+    read = readline = readlines = __next__ = _fail
+
+    def __iter__(self):
+        return self
+
+    def __enter__(self):
+        return self
+
+    def __exit__(self, *exc):
+        self._f.close()
+        return False
+
+    def __getattr__(self, name):
+        return getattr(self._f, name)
+
+
+def trace_of_model_f(tr):
+    out = []
+    for e in tr:
+        if e[0] == 0:
+            out.append(("isfile", bool(e[1])))
+        elif e[0] == 1:
+            out.append(("open", "r"))
+        elif e[0] == 3:
+            out.append(("open", "r"))          # the failed read is an open for reading too (the exception class is in the value)
+        else:
+            out.append(("open", "w"))
+    return out
 
 
 def trace_of_model(tr):
@@ -357,22 +441,45 @@ def trace_of_model(tr):
 # ---------------------------------------------------------------------------------------
 
 
+P_APP = 0.2          # share of the random cases that run under another application name
+P_FAULT = 0.06       # share of the random cases with a user file whose read fails
+
+
 def gen_cases(ck):
+    """(stream, default, user | None, opts); opts: app (application name), fault (a read fault, only with a user file),
+    via_save (the user's file is put in place by save_config_toml)"""
     rng = ck.rng
     for d, u in G.corpus_pairs():
-        yield "corpus", d, u
+        yield "corpus", d, u, {}
+    # round 5: application names (dots, leading / trailing dot, unicode, long): one overlay with keys on both sides and
+    # user-only tables, one first run with later loads, per name
+    d1, u1 = [G.build(ops) for ops in G.fault_corpus()[0]]
+    for i, app in enumerate(G.APP_NAMES):
+        yield "corpus-appname", d1, u1, {"app": app, "via_save": i % 2 == 0}
+        yield "corpus-appname", d1, None, {"app": app}
+    # round 5: the read of the existing file fails
+    for k, (dops, uops) in enumerate(G.fault_corpus()):
+        for j, fault in enumerate(G.READ_FAULTS):
+            yield "corpus-read-fault", G.build(dops), G.build(uops), {"fault": fault,
+                                                                       "app": G.APP_NAMES[(j + k) % 4] if (j + k) % 3 == 0 else APP}
     n = int(os.environ.get("VERIF_C20_N", "0")) or (1500 if ck.tier == "quick" else 60000)
     for i in range(n):
         r = rng.random()
+        opts = {}
+        if rng.random() < P_APP:
+            opts["app"] = G.rand_app_name(rng)
         if r < 0.30:
             d = G.gen_doc(rng, allow_ml=rng.random() < 0.15, aot_sub=rng.random() < 0.1)
-            yield "random-nofile", d, None
-        elif r < 0.60:
+            yield "random-nofile", d, None, opts
+            continue
+        if rng.random() < P_FAULT:
+            opts["fault"] = rng.choice(G.READ_FAULTS)
+        if r < 0.60:
             d = G.gen_doc(rng, allow_ml=rng.random() < 0.1)
-            yield "random-independent", d, G.gen_doc(rng, allow_ml=rng.random() < 0.2)
+            yield "random-independent", d, G.gen_doc(rng, allow_ml=rng.random() < 0.2), opts
         else:
             d = G.gen_doc(rng, allow_ml=rng.random() < 0.1, size=rng.choice([3, 5, 8, 12, 16, 24]))
-            yield "random-derived", d, G.gen_user_from(rng, d, allow_ml=rng.random() < 0.2)
+            yield "random-derived", d, G.gen_user_from(rng, d, allow_ml=rng.random() < 0.2), opts
 
 
 # str.isspace() characters (CPython 3) and look-alikes that are not (NUL, BS, ZWSP, WORD JOINER, BOM, U+180E, U+0084, U+0086)
@@ -386,17 +493,22 @@ def main(argv=None):
     ck = Check("C20", argv)
     common.setup_impl_env()
     impl = Impl()
-    if ck.prove(extra_targets=["Bridge/BridgeConfig.v", "Props/C20Text.v"], gen_kernels=["_merge"]):
-        ok_ax, ax = common.print_assumptions("Props/C20Text.v", ck.log)
-        if ok_ax:
-            ck.axioms.update(ax)
-        else:
-            ck.broken.append("Print Assumptions pass failed on Props/C20Text.v")
+    if ck.prove(extra_targets=["Bridge/BridgeConfig.v", "Props/C20Text.v", "Props/C20Faults.v"], gen_kernels=["_merge"]):
+        for extra in ("Props/C20Text.v", "Props/C20Faults.v"):
+            ok_ax, ax = common.print_assumptions(extra, ck.log)
+            if ok_ax:
+                ck.axioms.update(ax)
+            else:
+                ck.broken.append("Print Assumptions pass failed on " + extra)
     have_driver = ck.driver()
     # second extracted model (round 2): _comment_out_toml on the text, Model/ConfigText.v
     have_text_driver, out = common.build_driver("C20Text", ck.log, "ExC20Text")
     if not have_text_driver:
         ck.broken.append("text model no longer extracts/compiles: " + out[-300:])
+    # third extracted model (round 5): the I/O script with a read that may fail, Model/ConfigFaults.v
+    have_fault_driver, out = common.build_driver("C20Faults", ck.log, "ExC20Faults")
+    if not have_fault_driver:
+        ck.broken.append("fault-script model no longer extracts/compiles: " + out[-300:])
     text_cases = {}      # text -> replay
     ck.run_witnesses(["w15", "w20"])
 
@@ -416,11 +528,21 @@ def main(argv=None):
                              dict(replay, file_before=before[0].decode("utf-8", "replace"),
                                   file_after=None if after is None else after[0].decode("utf-8", "replace")))
 
-    for stream, d, u in gen_cases(ck):
+    is_root = hasattr(os, "geteuid") and os.geteuid() == 0
+    fault_wire, fault_expect = [], []
+
+    for stream, d, u, opts in gen_cases(ck):
         ck.count(stream)
-        replay = {"default_config": d.text, "user_file": None if u is None else u.text,
-                  "call": f"XDG_CONFIG_HOME=<fresh dir>; load_config_toml('{APP}', default_config)"
-                          + ("" if u is None else f" with <dir>/activitywatch/{APP}/{APP}.toml = user_file")}
+        app, fault = opts.get("app", APP), (opts.get("fault") if u is not None else None)
+        if fault is not None and fault[0] == "chmod" and is_root:
+            ck.count("read fault by file mode (0200 / 0000) skipped: the harness runs as root, which may read every file")
+            fault = None
+        replay = {"default_config": d.text, "user_file": None if u is None else u.text, "appname": app,
+                  "call": f"XDG_CONFIG_HOME=<fresh dir>; load_config_toml({app!r}, default_config)"
+                          + ("" if u is None else " with <dir>/activitywatch/<appname>/<appname>.toml = user_file")}
+        if app != APP:
+            ck.count("application name other than %r" % APP + (": with a dot" if "." in app else "")
+                     + (": with a user file" if u is not None else ": first run"))
         pd = impl.parse(d.text)
         # the user's file is read in text mode: universal newlines turn "\r\n" into "\n" before tomlkit sees it
         pu = None if u is None else impl.parse(u.text.replace("\r\n", "\n").replace("\r", "\n"))
@@ -445,9 +567,42 @@ def main(argv=None):
             ask([1, lab.doc(doc)], "lines", (doc, kept, ptk, ptc, dict(replay, text=doc.text, commented=commented)))
 
         # ---- the implementation, through load_config_toml
-        impl.fresh()
+        impl.fresh(app)
         if u is not None:
-            impl.put_user_file(u.text)
+            placed = True
+            if opts.get("via_save"):
+                try:
+                    placed = impl.put_user_file(u.text, via_save=True)
+                except Exception as ex:
+                    placed = False
+                    replay["save_config_toml"] = "raised " + type(ex).__name__
+                if not placed:
+                    ck.disagreement("config-path", f"save_config_toml({app!r}, text) did not leave the text in <config dir>/<appname>.toml "
+                                    f"(files: {impl.strays()})", dict(replay))
+                else:
+                    ck.count("user file put in place by save_config_toml")
+            if not placed or not opts.get("via_save"):
+                impl.put_user_file(u.text, prefix=(b"\xff\xfe# not utf-8\n" if fault is not None and fault[0] == "undecodable" else b""))
+        if fault is not None:
+            # ---- round 5: a load during which the READ of the existing file fails.  The file is as it was, whatever the
+            # load answers; the load after it (below) has the user's values.
+            what = {"open": "the read-mode open of the file raises OSError(%s) once", "read": "f.read() raises OSError(%s) once",
+                    "chmod": "the file has mode %s while the load runs", "undecodable": "the file starts with bytes that are not UTF-8%.0s"}[fault[0]] \
+                % (oct(fault[1]) if fault[0] == "chmod" else (os.strerror(fault[1]) if fault[1] else ""))
+            replay = dict(replay, read_fault=what)
+            v0, before0, after0, trace0 = impl.load(d.text, fault)
+            ck.count("load with a failing read of the existing file: " + fault[0] + (" -> raised" if v0[0] == "EXC" else " -> answered"))
+            check_untouched(f"load during which the read of the existing file fails ({what}; the load "
+                            f"{'raised ' + v0[1] if v0[0] == 'EXC' else 'returned ' + str(v0)})", before0, after0, trace0, replay)
+            if pd[0] != "EXC" and d.one_line:
+                fault_wire.append(sx([lab.doc(d), [lab.doc(u)], 5 if fault[0] == "undecodable" else 10]))
+                fault_expect.append((v0, impl.exc, trace0, impl.fault_fired, fault, replay))
+            if fault[0] == "undecodable":
+                if impl.strays() or impl.other:
+                    ck.disagreement("io-script", f"files other than <appname>.toml were touched: {impl.strays()} {impl.other}", replay)
+                impl.done()
+                ck.note_case([d.text, u.text, app, list(fault)], nontrivial=pd[0] != "EXC")
+                continue
         v1, before1, after1, trace1 = impl.load(d.text)
         loads = [(v1, trace1, after1)]
         check_untouched("load with an existing file", before1, after1, trace1, replay)
@@ -487,6 +642,10 @@ def main(argv=None):
                                      f"got {vn}, defaults {pd}",
                                      dict(replay, got=vn, expected=pd,
                                           written_file=None if after1 is None else after1[0].decode("utf-8", "replace")))
+        if impl.strays() or impl.other:
+            # the model's file system is the one file <config dir>/<appname>.toml
+            ck.disagreement("io-script", f"load_config_toml({app!r}, ...) touched files other than <appname>.toml below the configuration "
+                            f"home: files {impl.strays()}, opens {impl.other[:4]}", replay)
         impl.done()
 
         # ---- the model
@@ -508,7 +667,8 @@ def main(argv=None):
 
         nontrivial = (u is None and pd[0] != "EXC") or (u is not None and pd[0] != "EXC" and pu[0] != "EXC"
                                                          and any(k in dict(pd[1]) for k, _ in pu[1]))
-        ck.note_case([d.text, None if u is None else u.text], nontrivial=nontrivial)
+        ck.note_case([d.text, None if u is None else u.text] + ([app] if app != APP else []) + ([list(fault)] if fault else []),
+                     nontrivial=nontrivial)
         ck.count("default lines=%d" % min(len(d.lines), 20))
         if G.has_line_separator(d.text):
             ck.count("default has a line with a character at which str.splitlines() splits (U+2028/U+2029/U+0085/VT/FF/FS/GS/RS)"
@@ -624,6 +784,28 @@ def main(argv=None):
                     if iw is None or mw is None or iw != mw:
                         ck.disagreement("load", f"load on the line model differs: model {mval} impl {v1}",
                                         dict(replay, case=w))
+    # ---- the I/O script with a failing read (Model/ConfigFaults.v): value = the exception's class, trace = isfile -> failed
+    # read, no write (C20_read_fault_no_write)
+    if have_fault_driver and fault_wire:
+        res = common.run_driver("C20Faults", fault_wire)
+        for (v0, exc, trace0, fired, fault, replay), w, mo in zip(fault_expect, fault_wire, res):
+            ck.count("load with a failing read: model run")
+            if mo == [-999]:
+                ck.disagreement("wire", "fault driver could not decode a case", {"case": w})
+                continue
+            mval, mfile, mtrace = mo
+            want_cls = ValueError if mval[:2] == [1, 5] else OSError
+            if fault[0] in ("open", "read") and fired is None:
+                ck.disagreement("io-script-faults", "the configuration file was never opened for reading through open(): the injected "
+                                "fault was not reached", dict(replay, case=w, impl_trace=trace0))
+            elif mval[0] != 1 or v0[0] != "EXC" or not isinstance(exc, want_cls):
+                ck.disagreement("io-script-faults", f"the read of the existing file fails: model answers {mval} (the exception leaves the "
+                                f"function), load_config_toml {'raised ' + v0[1] if v0[0] == 'EXC' else 'returned ' + str(v0)}",
+                                dict(replay, case=w, model=mo))
+            if trace_of_model_f(mtrace) != trace0:
+                ck.disagreement("io-script-faults", f"file operations of the load with a failing read differ: model {trace_of_model_f(mtrace)} "
+                                f"impl {trace0}", dict(replay, case=w))
+
     # ---- text level: Model/ConfigText.v on the code points of every generated document
     # plus raw texts (not necessarily TOML): every str.isspace() character, and some that are not, in front of a
     # header / array header / key / comment / nothing, alone on a line, and between two lines
@@ -652,6 +834,12 @@ def main(argv=None):
         "leaves are compared through labels, one per exact (type, value): 1, 1.0, true and \"1\" are different leaves",
         "the file system is reduced to the one file load_config_toml addresses; directory creation by "
         "dirs.get_config_dir is outside the model; bytes, mtime_ns and inode of the file are compared before/after",
+        "which file that is -- <config dir>/<appname>.toml for every admissible application name (one path component, <= 255 "
+        "bytes with the suffix) -- is the harness's statement, not the model's: cases run under names with dots, a leading / "
+        "trailing dot, unicode letters and of maximal length; any other file touched below the configuration home is reported",
+        "read faults (Model/ConfigFaults.v): the answer to the read of the existing file is a parameter of the script; on the "
+        "implementation it is injected into the open() the module calls (OSError at open, OSError at read; a file mode "
+        "without read permission when not root; bytes that are not UTF-8)",
     ]
     return ck.finish(RULE)
 
